@@ -297,8 +297,21 @@ namespace mon
    };
 
    // ------------------------------------------------------------------ results handed to monitor.cpp
+   struct tnode
+   {
+      std::string_view type;
+      std::size_t bo, eo;          // pointer offsets of m_begin / m_end (eo = npos when content was removed)
+      std::size_t bbyte, bline, bcol, ebyte, eline, ecol;   // node.begin() / node.end() as a user sees them
+      int depth;
+      bool has_content;
+      bool content_ok;             // string_view() == input[ bo, eo )
+      bool source_foreign = false; // node.source does not refer to the top-level input's source
+   };
+
    struct runres
    {
+      std::vector< tnode > tree;
+      bool tree_null = false;
       int st = 0;            // 1 success, 0 local failure, 2 parse_error, 3 fuel, 4 foreign std, 5 alien, 6 other std::exception, 7 unknown, 8 overflow_error
       std::size_t end_byte = 0;
       const char* end_ptr = nullptr;
